@@ -808,3 +808,22 @@ Theorem C03_strict_chain_needed :
        /\ ~ Relations (built_sub (built_sub (build_self ig_root) [115]) [116]) (level_matcher sm).
 Proof. exact strict_chain_needed. Qed.
 Print Assumptions C03_strict_chain_needed.
+
+(** ---------- round 4: definitions WITH short flag-subcommands (class [flag_sub_class], see Properties/C01.v) ----------
+    the closed form of soundness: the key-uniqueness hypothesis is discharged by the parse-loop invariant generalised
+    over the resume state of short flag-subcommands (ParseProofs/FsInvariant.v, FsTotality.v, FsIndex.v) *)
+From ClapModel Require Import ParseProofs.FlagSubClass ParseProofs.FsInvariant ParseProofs.FsTotality ParseProofs.FsIndex.
+
+Theorem C03_parse_sound_flag_subs : forall c0 toks m,
+  flag_sub_class c0 = true -> valid c0 = true ->
+  do_parse c0 toks = OOk m -> is_set s_ignore_errors (build_self c0) = false ->
+  exists st, run_level c0 toks = ROk st /\ m = reported c0 st /\ Relations (build_self c0) (mt st).
+Proof. exact parse_relations_fs. Qed.
+Print Assumptions C03_parse_sound_flag_subs.
+
+(** at every level of the recursion, whichever way it was entered (by name / long flag, or by re-reading a cluster) *)
+Theorem C03_level_sound_closed_flag_subs : forall fuel c toks st0 st,
+  tree_ok_fs fuel c -> idx_entry c toks st0 -> get_matches_with fuel c toks st0 = ROk st ->
+  Relations c (mt st).
+Proof. exact level_relations_fs. Qed.
+Print Assumptions C03_level_sound_closed_flag_subs.
